@@ -93,7 +93,7 @@ CORPUS = [
 
 def correspondence(ctx):
     rng = random.Random(ctx.seed * 1000003 + 12)
-    n = 1200 if ctx.quick else 20000
+    n = ctx.n(1200, 20000)
     scripts = [list(s) for s in CORPUS] + [gen_script(rng, rng.randrange(3, 16 if rng.random() < 0.8 else 40)) for _ in range(n)]
     dis, ops, distinct = [], {}, set()
     for s in scripts:
@@ -264,7 +264,7 @@ def oracle_run(rng, repo, nops, eps_max):
 
 def oracle(ctx, full):
     rng = random.Random(ctx.seed * 7907 + 12)
-    n = 100 if (ctx.quick and not full) else 2500
+    n = ctx.n(100, 2500, full)
     findings, evals, distinct = [], 0, set()
     sample = None
     for _ in range(n):
